@@ -51,6 +51,9 @@ CHECKS = {
  "C16": ("model_checking", "TLC model checking of the four routes (direct, builder, Sprintfn, SafeFormat) on the Printer/builder spec + the 8 real routes run on the same operands with recording writers",
    "The specification's builder layer (PreRedactable write of a finished text) and nested-printer layer (borrowed buffer, restored mode) are checked equal up to envelope merging on every case; the real routes are compared among themselves, and the Fprint writer protocol (single Write, n and err passed through) is checked with ok/failing/short writers.",
    "DESIGN.md 6/C16", "none beyond the harness"),
+ "C08": ("model_checking", "TLC model checking of the Printer/builder spec on redactables produced by the model itself (print -> reprint -> join -> reprint) + replay + relational judge on the real code",
+   "The set of redactables is generated inside TLC by running the printer model on every short payload, then closed under re-printing in every shape/verb, concatenation and joining; identity and distribution laws are invariants; the real code must match byte for byte and satisfy the placeholder-substitution relation.",
+   "DESIGN.md 6/C08", "none beyond the harness"),
 }
 
 NOT_YET = {
